@@ -26,7 +26,7 @@ deriving Repr, DecidableEq
 
 /-- `--in-interface cali+` : `+` is the iptables wildcard. -/
 def ifaceMatches (pat name : String) : Bool :=
-  if pat.endsWith "+" then (pat.dropRight 1).isPrefixOf name else pat == name
+  if pat.endsWith "+" then (pat.dropEnd 1).toString.isPrefixOf name else pat == name
 
 def inNet (addr netAddr len : Nat) : Bool := addr / 2 ^ (32 - len) == netAddr / 2 ^ (32 - len)
 
@@ -93,37 +93,41 @@ abbrev Chains := String → Option (List Rule)
 /-- bit-clear on marks. -/
 def clearBits (mark m : Nat) : Nat := mark - (mark &&& m)
 
-mutual
-/-- run the rest of a rule list. `fuel` bounds the call depth (the chain graph is acyclic). -/
-def runRules (cs : Chains) : Nat → List Rule → Pkt → Res
-  | _, [], p => .fall p
-  | fuel, r :: rs, p =>
+/-- run a rule list, given how to run a callee chain. -/
+def runRulesWith (call : String → Pkt → Res) : List Rule → Pkt → Res
+  | [], p => .fall p
+  | r :: rs, p =>
     if r.matches p then
       match r.action with
       | .accept => .accept
       | .drop => .drop
       | .ret => .fall p
-      | .setMark m => runRules cs fuel rs { p with mark := p.mark ||| m }
-      | .clearMark m => runRules cs fuel rs { p with mark := clearBits p.mark m }
-      | .notrack => runRules cs fuel rs p
+      | .setMark m => runRulesWith call rs { p with mark := p.mark ||| m }
+      | .clearMark m => runRulesWith call rs { p with mark := clearBits p.mark m }
+      | .notrack => runRulesWith call rs p
       | .jump c =>
-        match runChain cs fuel c p with
-        | .fall p' => runRules cs fuel rs p'
+        match call c p with
+        | .fall p' => runRulesWith call rs p'
         | v => v
-      | .goto c => runChain cs fuel c p
-    else runRules cs fuel rs p
-/-- run a named chain (an unknown chain behaves as empty: iptables-restore would have failed). -/
+      | .goto c => call c p
+    else runRulesWith call rs p
+
+/-- run a named chain; `fuel` bounds the call depth (the chain graph is acyclic).  An unknown chain
+behaves as empty (iptables-restore would have refused the reference). -/
 def runChain (cs : Chains) : Nat → String → Pkt → Res
   | 0, _, p => .fall p
   | fuel + 1, c, p =>
     match cs c with
-    | some rs => runRules cs fuel rs p
+    | some rs => runRulesWith (runChain cs fuel) rs p
     | none => .fall p
-end
+
+/-- run the rest of a rule list at call depth `fuel`. -/
+def runRules (cs : Chains) (fuel : Nat) (rs : List Rule) (p : Pkt) : Res :=
+  runRulesWith (runChain cs fuel) rs p
 
 /-! ## iptables text (what `iptablesRenderer.RenderAppend` prints) -/
 
-def hex (n : Nat) : String := "0x" ++ String.mk (Nat.toDigits 16 n)
+def hex (n : Nat) : String := "0x" ++ String.ofList (Nat.toDigits 16 n)
 
 def Crit.render : Crit → String
   | .protoName n _ => s!"-p {n}"
